@@ -179,10 +179,16 @@ def m_timer(inst, to=None, on=None, off=None):
     return cs5(0x33, 9, [[a["id"]] + st(on) + st(off) + [0, 0, 0, 0] for a in inst.acs], to)
 
 
-def m_zone_status(inst, st, to=None):
+def m_zone_status(inst, st, to=None, unknown_first=None):
+    """`unknown_first`: a zone / group number the client was never told about (enabled on the console later), reported FIRST"""
+    order = sorted(inst.zones)
+    st = dict(st)
+    if unknown_first is not None and unknown_first not in inst.zones:
+        st[unknown_first] = dict(power=1, ctrl=0, damper=40, turbo=False, setpoint=21, sensor=False, temp=0)
+        order = [unknown_first] + order
     if inst.gen == 4:
         body = b""
-        for z in sorted(inst.zones):
+        for z in order:
             s = st[z]
             t = (((s["temp"] + 500) << 5) & 0xFFE0) if s["sensor"] else 0xFF00
             body += bytes([(s["power"] << 6) | z, (s["ctrl"] << 7) | s["damper"], (0x40 if s["turbo"] else 0) | (s["setpoint"] & 0x3F),
@@ -191,7 +197,7 @@ def m_zone_status(inst, st, to=None):
     if not inst.zones:
         return msg(0xC0, bytes([0x21, 0, 0, 0, 0, 0, 0, 0]), 0xB0)       # zero zones: echo of the request, addressed to the client
     recs = []
-    for z in sorted(inst.zones):
+    for z in order:
         s = st[z]
         t = (s["temp"] + 500) if s["sensor"] else 0xFFFF
         recs.append([(s["power"] << 6) | z, (s["ctrl"] << 7) | s["damper"], s["setpoint"] * 10 - 100, 0x80 if s["sensor"] else 0,
